@@ -96,6 +96,9 @@ def main():
         rec["confirmed"] = (None if demos_ok else False) if skip_tests else bool(
             demos_ok and not [m for m in rec["tests_on_changed_tree"]["baseline_tests_not_passing"] if "faster_than" not in m])
         rec["checks"] = {}
+        import fcntl
+        lock = open("/tmp/verif-gen.lock", "w")           # generated Lean files are shared: one changed tree at a time
+        fcntl.flock(lock, fcntl.LOCK_EX)
         for chk in checks:
             for tier in ("quick", "thorough"):
                 t0 = time.time()
@@ -111,8 +114,18 @@ def main():
         sh(f"{PY} harness/regen.py", cwd=HERE)
     dst = f"{HERE}/seeded/{pid}/{name}"
     os.makedirs(dst, exist_ok=True)
-    shutil.copy(f"{src}/patch.diff", f"{dst}/patch.diff")
-    shutil.copy(f"{src}/demo.py", f"{dst}/demo.py")
+    if os.path.exists(f"{dst}/meta.json"):                 # keep the record of earlier runs (e.g. "missed before the check was strengthened")
+        old = json.load(open(f"{dst}/meta.json"))
+        rec["earlier_runs"] = old.get("earlier_runs", []) + [{"at": old.get("confirmed_at"), "caught": old.get("caught"),
+                                                              "checks": {k: v["exit"] for k, v in old.get("checks", {}).items()}}]
+        if "initially_missed" in old:
+            rec["initially_missed"] = old["initially_missed"]
+        if "tests_on_changed_tree" in old and "tests_on_changed_tree" not in rec:
+            rec["tests_on_changed_tree"] = old["tests_on_changed_tree"]
+            rec["confirmed"] = old.get("confirmed") if rec["confirmed"] is None else rec["confirmed"]
+    if os.path.abspath(src) != os.path.abspath(dst):
+        shutil.copy(f"{src}/patch.diff", f"{dst}/patch.diff")
+        shutil.copy(f"{src}/demo.py", f"{dst}/demo.py")
     json.dump(rec, open(f"{dst}/meta.json", "w"), indent=1)
     print(json.dumps({k: rec.get(k) for k in ("property", "confirmed", "caught", "demo_clean_exit", "demo_changed_exit")}),
           {k: (v["exit"], v["what"][:1]) for k, v in rec.get("checks", {}).items()},
